@@ -73,7 +73,12 @@ def configs(tier):
                     for div in divs_all:
                         if tier == "quick" and div in ((4, 4, 2), (2, 4, 2), (3, 3, 3)):
                             continue
-                        for mesh in ((2, 2, 2), (3, 3, 3), (2, 2, 1)) if tier == "thorough" else ((2, 2, 2),):
+                        for mesh in ((2, 2, 2), (3, 3, 3), (2, 2, 1), (3, 1, 2)) if tier == "thorough" else ((2, 2, 2), (2, 2, 1), (3, 3, 3), (3, 3, 1)):
+                            # quick: the cubic mesh everywhere; a non-cubic and two odd meshes (the centre child of an odd
+                            # mesh coincides with its dead parent) on the small grids only
+                            if tier == "quick" and not (mesh == (2, 2, 2) or (mesh == (2, 2, 1) and div in ((2, 2, 2), (2, 2, 1)))
+                                                        or (mesh == (3, 3, 3) and div == (1, 1, 1)) or (mesh == (3, 3, 1) and div == (2, 2, 1))):
+                                continue
                             out.append({"kind": "grid", "group": name, "setting": setting, "variant": variant, "lat": lat,
                                         "div": list(div), "mesh": list(mesh)})
     for lat in ("sc", "tric", "hex", "fcc"):
